@@ -25,5 +25,8 @@ use arch::add::{add_with_carry, sub_with_borrow};
 //@@ FN integer/add/add_in_place.rs
 //@@ FN integer/add/sub_in_place.rs
 //@@ FN integer/add/sub_in_place_with_sign.rs
+//@@ FN integer/add/add_signed_word_in_place.rs
+//@@ FN integer/add/add_signed_same_len_in_place.rs
+//@@ FN integer/add/add_signed_in_place.rs
 } // verus!
 fn main() {}
